@@ -710,6 +710,10 @@ SPECIAL: List[Tuple[Optional[str], str, List[Any]]] = [
     (None, "print", ["pwned"]), (None, "eval", ["1+1"]), (None, "dict", []), (None, "open", ["x"]), (None, "object", []),
     (None, "ValueError", ["x"]), (None, "_verif_builtin_trap", [1, 2]), (None, "_VerifBuiltinTrapCls", []),
     (None, "len", ["abc"]), (None, "list", []), (None, "exit", []), (None, "__import__", ["colorsys"]),
+    # unresolvable types whose *name* is also the name of something taskiq itself uses
+    ("worker_app.errors", "SecurityError", ["x"]), ("worker_app.errors", "TaskiqError", []), ("remote.lib", "NoResultError", []),
+    ("remote.lib", "exception_to_python", ["x"]), (None, "SecurityError", ["x"]), ("worker_app.errors", "ValueError", ["v"]),
+    ("worker_app.errors", "charge.<locals>.QuotaExceeded", ["q"]), (None, "Outer.Inner", [1]),
 ]
 
 ARGS_POOL: List[List[Any]] = [[], ["x"], ["echo pwned"], [1, 2], [["nested"]], [{"k": "v"}], ["a", "b", "c"], [None]]
@@ -805,8 +809,34 @@ def calibrate_legit_callees() -> None:
     del CALLS[:]
 
 
+_SECURITY_ERROR = taskiq.exceptions.SecurityError
+_NS_MODULES = ("taskiq.exceptions", "taskiq.serialization", "builtins")
+_NS_SNAPSHOT: Dict[str, Dict[str, int]] = {}
+
+
+def _ns_changes() -> List[str]:
+    """Names added to / rebound in taskiq's exception and serialisation modules (or builtins) since the first
+    call: loading a stored error must not leave anything behind that later loads can trip over."""
+    out = []
+    for m in _NS_MODULES:
+        cur = {k: id(x) for k, x in vars(sys.modules[m]).items()}
+        if m not in _NS_SNAPSHOT:
+            _NS_SNAPSHOT[m] = cur
+            continue
+        old = _NS_SNAPSHOT[m]
+        for k, i in cur.items():
+            if k.startswith("_") and k not in ("_UnpickleableExceptionWrapper",):
+                continue
+            if k not in old:
+                out.append(f"{m}.{k} added")
+            elif old[k] != i and m != "builtins":
+                out.append(f"{m}.{k} rebound")
+    return out
+
+
 def run_c20(spec: Dict[str, Any]) -> "tuple[List[Violation], Dict[str, Any]]":
     install_trapmod()
+    _ns_changes()
     monitor_start()
     calibrate_legit_callees()
     v: List[Violation] = []
@@ -844,7 +874,7 @@ def run_c20(spec: Dict[str, Any]) -> "tuple[List[Violation], Dict[str, Any]]":
                 js = json.dumps({"is_err": True, "return_value": None, "execution_time": 0.1, "error": p})
                 result = TaskiqResult.model_validate_json(js).error
             outcome = "loaded"
-        except taskiq.exceptions.SecurityError:
+        except _SECURITY_ERROR:
             outcome = "security-error"
         except pydantic.ValidationError:
             outcome = "validation-error"
@@ -853,6 +883,12 @@ def run_c20(spec: Dict[str, Any]) -> "tuple[List[Violation], Dict[str, Any]]":
             v.append(Violation("unexpected-exception", f"{entry}: loading ({module!r}, {name!r}) raised {type(exc).__name__}: {str(exc)[:200]}"))
         finally:
             _audit_on[0] = False
+        ch = _ns_changes()
+        if ch:
+            v.append(Violation("library-namespace-changed", f"{entry}: loading ({module!r}, {name!r}) left {ch[:4]} behind"))
+            for m_ in _NS_MODULES:  # re-arm, so that the next case is judged on its own
+                _NS_SNAPSHOT.pop(m_, None)
+            _ns_changes()
         calls = list(CALLS)
         obs["outcomes"].append((entry, outcome))
         obs["call_events"] = obs.get("call_events", 0) + len(calls)
